@@ -421,8 +421,8 @@ func genC07(r *rand.Rand, tier string) []Case {
 func init() {
 	register(&Prop{
 		ID: "C07", Num: 7,
-		Gen: genC07,
-		New: func() Case { return &c07Case{} },
+		Gen:  genC07,
+		New:  func() Case { return &c07Case{} },
 		Rule: "logs of 1-40 Append/AppendSync/Rotate operations (empty records, records larger than the file size limit and the write buffer, marker bytes), maximum file sizes {9,30,100,1000,1Mi}, write buffers {1,16,64,4096,4Mi}, compression none/snappy; the closed log is replayed; a few programs (4 quick, 60 thorough) additionally run in a child under strace and the real replayer runs on the directory image of EVERY boundary between two mutating system calls. Non-trivial: >=3 operations and >=2 files.",
 	})
 	_ = hex.EncodeToString
